@@ -186,6 +186,23 @@ Exceeds(M, limits) == \E k \in LimitKinds : limits[k] >= 0 /\ M[k] > limits[k]
 MustReject(C, limits) == Exceeds(Measures(C), limits) \/ ("DevOmittedVarRuleError" \in C.dev /\ RuleError(C))
 
 ----------------------------------------------------------------------------
+(* "Fragments counted as if written inline", as a law of the measures (checked by TLC on every   *)
+(* generated document in the measuring pass): replacing every spread by the inline fragment it  *)
+(* stands for changes no measure.                                                               *)
+RECURSIVE InlineSels(_, _, _)
+InlineSels(C, sels, i) ==
+  IF i > Len(sels) THEN <<>>
+  ELSE LET s == sels[i]
+           x == IF s.k = "spread"
+                THEN (IF HasFrag(C, s.name)
+                      THEN [k |-> "inline", on |-> Frag(C, s.name).on, dirs |-> s.dirs, sels |-> InlineSels(C, Frag(C, s.name).sels, 1)]
+                      ELSE s)
+                ELSE [s EXCEPT !.sels = InlineSels(C, s.sels, 1)]
+       IN <<x>> \o InlineSels(C, sels, i + 1)
+InlinedDoc(C) == [ops |-> [j \in 1..Len(C.doc.ops) |-> [C.doc.ops[j] EXCEPT !.sels = InlineSels(C, C.doc.ops[j].sels, 1)]], frags |-> <<>>]
+InliningLaw(C) == Measures(C) = Measures([C EXCEPT !.doc = InlinedDoc(C)])
+
+----------------------------------------------------------------------------
 (* Trigger predicates of the deviations (the inputs on which each can show) *)
 \* a named spread whose fragment has a type condition different from the static type at the spread's place
 RECURSIVE SpreadMismatch(_, _, _, _)
